@@ -285,11 +285,14 @@ impl InSitu {
             let leaf = w.leaf_of(s);
             let g = w.gm(s);
             let sent = guarded(|| g.encrypt_application_message(b"c13 probe", vec![7]));
-            if let Ok(Ok(_)) = sent {
-                for e in w.rec.take() {
+            if let Ok(Ok(m)) = sent {
+                let evs: Vec<_> = w.rec.take().into_iter().filter(|e| e.kind == "aead_seal" && e.who == s as u32).collect();
+                let all: Vec<Value> = evs.iter().map(|e| json!([hx(&e.a), hx(&e.b)])).collect();
+                for e in &evs {
                     // content seal: AAD carries authenticated data after the content type
-                    if e.kind == "aead_seal" && e.who == s as u32 && e.c.len() > 0 && e.c.last() == Some(&7) {
-                        seals.push(json!({"leaf": leaf, "generation": 0, "key": hx(&e.a), "nonce": hx(&e.b)}));
+                    if !e.c.is_empty() && e.c.last() == Some(&7) {
+                        seals.push(json!({"leaf": leaf, "generation": 0, "key": hx(&e.a), "nonce": hx(&e.b),
+                                          "msg": hx(&m.to_bytes().unwrap_or_default()), "all": all}));
                     }
                 }
             }
